@@ -6,7 +6,7 @@ from fvgen import case, parse_case, parse_out
 RULE = ("bufsize: every b in 0..4096 (quick) / 0..2^20+16 (thorough) plus values around 8192, 2^20, 2^32, 2^63 and the overflow arm; req_run: "
         "one critical pair of total size B-13-d (d in 0..3: inside the bound, must parse) and B-12..B-4 (outside: explored for information, "
         "verdict must merely agree with the model), placed at the start / middle / end of a Params record or across two/three records, "
-        "schedules greedy (reads that exactly fill the buffer), 1-byte and random, buffers 24..200 and 8192. Non-trivial: pair at or beyond "
+        "schedules greedy (reads that exactly fill the buffer), 1-byte and random, buffers 24..200 and 8192; plus GetValues management records whose BODY exceeds the buffer while every pair is tiny, before BeginRequest and between Params records. Non-trivial: pair at or beyond "
         "B-13-3; distinct = distinct case lines.")
 ASSUMPTIONS = ["usize is 64 bits"]
 BOTH_PROFILES = True
@@ -58,12 +58,53 @@ def gen_cases(rng, tier):
         yield case("req_run", [B], [1], w, sched), ["bound", "inside" if d >= 0 else "outside", place]
 
 
+def gv_long(rng, Be):
+    """a GetValues record (management, id 0) whose BODY is longer than the effective buffer although every pair is tiny"""
+    names = [b"FCGI_MAX_CONNS", b"FCGI_MAX_REQS", b"FCGI_MPXS_CONNS", b"FCGI_MAX_THREADS", b"X", b"SOME_UNKNOWN_NAME"]
+    body = []
+    while len(body) <= Be + rng.randrange(0, 40):
+        n = list(rng.choice(names))[:max(1, min(20, Be - 14))]
+        v = [rng.randrange(256) for _ in range(rng.choice([0, 0, 1, 3]))] if len(n) + 3 + 13 <= Be else []
+        body += nv(n, v)
+    return record(GETVALUES, 0, body, rng.choice([0, 5, 255]))
+
+
+def gen_mgmt_cases(rng, tier):
+    quick = tier == "quick"
+    for _ in range(120 if quick else 6000):
+        B = rng.choice([24, 28, 32, 33, 40, 64, 100])
+        Be = eff(B)
+        pairs = rand_pairs(rng, rng.randrange(0, 3), max(0, min(8, (Be - 14) // 2)))
+        payload = nv_all(pairs)
+        cuts = cut_list(rng, len(payload), "few")
+        precs = stream_records(PARAMS, 1, payload, cuts, pads=[rng.choice([0, 7])])
+        where = rng.choice(["before-begin", "between-params", "both"])
+        recs = []
+        if where in ("before-begin", "both"):
+            recs.append(gv_long(rng, Be))
+        recs.append(begin(1, 1, 1))
+        if where in ("between-params", "both"):
+            k = rng.randrange(0, len(precs))
+            precs = precs[:k] + [gv_long(rng, Be)] + precs[k:]
+        w = flat(recs + precs)
+        sched = schedule(rng, len(w), rng.choice(["greedy", "one", "random"]))
+        yield case("req_run", [B], [3], w, sched), ["bound", "mgmt-long-body", where]
+
+
+_gen_cases_pairs = gen_cases
+
+
+def gen_cases(rng, tier):
+    yield from _gen_cases_pairs(rng, tier)
+    yield from gen_mgmt_cases(rng, tier)
+
+
 def nontrivial(line, tags):
     return "bound" in tags or True
 
 
 def min_classes(tier):
-    return {"bufsize": 4000, "inside": 60, "outside": 100}
+    return {"bufsize": 4000, "inside": 60, "outside": 100, "mgmt-long-body": 100}
 
 
 def oracle(line, impl_line):
@@ -88,6 +129,9 @@ def oracle(line, impl_line):
             if t == PARAMS:
                 payload += body
         pairs, _ = nv_decode(payload)
+        for t, rid, body, pad in recs:
+            if t == GETVALUES and rid == 0:
+                pairs = pairs + nv_decode(body)[0]          # the pairs of management records count as well
         if all(len(n) + len(v) + 13 <= Be for n, v in pairs):
             if o[1] == [2, 2]:
                 return "StuckOnInput although every pair respects the documented bound (B - 13)"
